@@ -429,7 +429,8 @@ def export_prefixed(pref: Prefixed) -> vlsir.Prefixed:
     prefix = export_prefix(pref.prefix)
 
     # And export the numeric part. Use Vlsir's `integer` variant for Decimal values which equal integers, and strings otherwise.
-    if pref.number == int(pref.number):
+    # (Integers which do not fit VLSIR's 64-bit field are exported as strings too.)
+    if pref.number == int(pref.number) and -(2**63) <= int(pref.number) < 2**63:
         return vlsir.Prefixed(int64_value=int(pref.number), prefix=prefix)
     return vlsir.Prefixed(string_value=str(pref.number), prefix=prefix)
 
